@@ -39,8 +39,10 @@ MUTS_COMMUNITY = [
     "trunc-half",
     "trunc-all",  # an empty datagram
     "req+rid+1",  # a *request* PDU (GetRequest) of the right community with a foreign request-id (looped-back request)
+    "rid+1/len84",  # non-matching reply whose outer SEQUENCE length is written in four octets (30 84 00 00 ..): well-formed BER
+    "len84",  # the genuine reply, outer length in four octets: still the reply
 ]
-MUTS_COMMUNITY_REDUCED = ["rid+1", "rid=r*", "comm-case", "version-other", "trunc-1", "trunc-all", "req+rid+1"]
+MUTS_COMMUNITY_REDUCED = ["rid+1", "rid=r*", "comm-case", "version-other", "trunc-1", "trunc-all", "req+rid+1", "rid+1/len84"]
 MUTS_V3 = [
     "rid+1",
     "rid+2^32",
@@ -63,6 +65,8 @@ MUTS_V3 = [
     "report+rid0",  # ... not echoing the request-id (RFC 3412: 0 when the request could not be read)
     "report+msgid+1",
     "report+msgid=r*",
+    "rid+1/len84",
+    "len84",
 ]
 MUTS_V3_REDUCED = ["rid+1", "msgid=r*", "user-other", "trunc-1", "report", "report+rid0", "report+msgid=r*"]
 
@@ -123,6 +127,9 @@ def owners(d):
     body = m[len("report+") :] if m.startswith("report+") else m
     if body.startswith("req+"):
         body = body[4:]
+    body = body.split("/")[0]
+    if body == "len84":
+        return rid_owner, mid_owner
     if body == "rid0":
         rid_owner = None
     elif body.startswith("rid=r"):
@@ -290,6 +297,8 @@ class Exec:
                 msg = drivers.reply_for(cfg, req, vb, pdu_tag=pdu_tag, request_id=rid, **kw)
             if m == "version-1":
                 msg = _rewrite_version(msg, 1)
+        if m is not None and m.endswith("len84"):
+            msg = _outer_len84(cfg, msg)
         if m == "trunc-1":
             msg = msg[:-1]
         elif m == "trunc-half":
@@ -308,6 +317,7 @@ class Exec:
         body = m[len("report+") :] if m.startswith("report+") else m
         if body.startswith("req+"):
             body = body[4:]
+        body = body.split("/")[0]
         adj = {"rid+1": 1, "rid-1": -1, "rid+2^32": 1 << 32, "rid-2^32": -(1 << 32), "rid-2^31": -(1 << 31)}
         if body == "rid0":
             rid = 0
@@ -344,6 +354,26 @@ def _seal_with_engine(cfg, req, scoped, engine_id):
     # plain (no auth/priv) message with a chosen authoritative engine id
     usm = rb.build_usm(engine_id, req.boots, req.time, cfg.user, b"", b"")
     return rb.build_v3(req.msg_id, 0, usm, scoped)
+
+
+def _outer_len84(cfg, msg):
+    """The same message with the length of the outer SEQUENCE written as 84 xx xx xx xx (MAC recomputed when there is one)."""
+    top = rb.parse_tlv(msg, 0, len(msg))
+    body = msg[top.cstart : top.end]
+    out = bytes([msg[0], 0x84]) + len(body).to_bytes(4, "big") + body
+    if cfg.version == "v3" and cfg.auth:
+        from .. import refcrypto
+
+        t = rb.parse_tlv(out, 0, len(out), False)
+        f = rb.parse_seq(out, t.cstart, t.end)  # version, header, security parameters (OCTET STRING), data
+        usm_top = rb.parse_tlv(out, f[2].cstart, f[2].end)
+        uf = rb.parse_seq(out, usm_top.cstart, usm_top.end)
+        off = uf[4].cstart
+        engine_id = out[uf[0].cstart : uf[0].end]
+        zeroed = out[:off] + b"\x00" * 12 + out[off + 12 :]
+        mac = refcrypto.mac_of_message(cfg.auth, cfg.auth_kul(engine_id), zeroed, off)
+        out = out[:off] + mac + out[off + 12 :]
+    return out
 
 
 def _rewrite_version(msg, v):
@@ -538,8 +568,8 @@ def search(rec, cfg, K, D, reduced, state_cap):
 # get() calls; the agent answers request k with a scripted list of datagrams (genuine reply, nothing, an extra
 # copy, a late copy of an earlier reply, one rewritten datagram before or after the genuine one).
 
-PUB_MUTS_COMMUNITY = ["rid+1", "rid+2^32", "rid=r*", "comm-case", "comm+256", "version-other", "trunc-1", "trunc-all", "req+rid+1"]
-PUB_MUTS_V3 = ["rid+1", "rid=r*", "msgid+1", "msgid=r*", "user-other", "engine-longer", "trunc-1", "trunc-all", "report", "report+msgid=r*"]
+PUB_MUTS_COMMUNITY = ["rid+1", "rid+1/len84", "len84", "rid+2^32", "rid=r*", "comm-case", "comm+256", "version-other", "trunc-1", "trunc-all", "req+rid+1"]
+PUB_MUTS_V3 = ["rid+1", "rid+1/len84", "rid=r*", "msgid+1", "msgid=r*", "user-other", "engine-longer", "trunc-1", "trunc-all", "report", "report+msgid=r*"]
 
 
 def pub_scripts(cfg, K, D, bases="one-drop"):
